@@ -505,6 +505,57 @@ func c16Flow(c *Ctx) {
 					}
 				}
 			}
+			// the function that contains the walk may itself be a helper of Install (installTree(fs, src, dst)): its
+			// parameters are rewritten into Install's context in the same way
+			lift := func(ts []string) []string { return ts }
+			cbRoot := cb
+			for cbRoot.Parent() != nil {
+				cbRoot = cbRoot.Parent()
+			}
+			if cbRoot != install {
+				var sites []callSite
+				for _, g := range llmFuncs(L) {
+					for _, cs2 := range callsIn(g) {
+						if cs2.common.StaticCallee() == cbRoot {
+							sites = append(sites, cs2)
+						}
+					}
+				}
+				if len(sites) == 1 {
+					outer := sites[0]
+					c.seen(fnName(cbRoot))
+					s4 := newSym(L, map[string]bool{})
+					s4.stack[install] = true
+					type rep2 struct {
+						re   *regexp.Regexp
+						vals []string
+					}
+					var reps []rep2
+					for i, p := range cbRoot.Params {
+						if i < len(outer.common.Args) {
+							reps = append(reps, rep2{regexp.MustCompile(`param:` + regexp.QuoteMeta(p.Name()) + `\b`), s4.eval(outer.common.Args[i])})
+						}
+					}
+					lift = func(ts []string) []string {
+						for _, r := range reps {
+							var next []string
+							for _, t := range ts {
+								if !r.re.MatchString(t) {
+									next = append(next, t)
+									continue
+								}
+								for _, v := range r.vals {
+									next = append(next, r.re.ReplaceAllLiteralString(t, v))
+								}
+							}
+							ts = uniq(next)
+						}
+						return ts
+					}
+				}
+			}
+			inner := subst
+			subst = func(ts []string) []string { return lift(inner(ts)) }
 			walked := ""
 			if len(cb.Params) > 0 && cb.Parent() != nil {
 				walked = "param:" + cb.Params[0].Name()
@@ -545,7 +596,7 @@ func c16Flow(c *Ctx) {
 				for _, w := range findCalls(cb.Parent(), "io/fs.WalkDir") {
 					if mc, ok := resolve(w.arg(2)).(*ssa.MakeClosure); ok && mc.Fn == cb {
 						s2 := newSym(L, map[string]bool{})
-						a0, a1 := s2.eval(w.arg(0)), s2.eval(w.arg(1))
+						a0, a1 := lift(s2.eval(w.arg(0))), lift(s2.eval(w.arg(1)))
 						if len(a0) == 1 && len(a1) == 1 && normTerm(a0[0]) == "agent.SkillsFS("+ag+")" && normTerm(a1[0]) == srcDir {
 							okWalk = true
 						} else {
